@@ -17,7 +17,7 @@ def rand_config(r, small=False):
             extra = r.choice([["level=1"], ["level=%d" % r.randrange(1, 10), "window=%d" % r.randrange(8, 16)],
                               ["filtered", "huffman"], ["rle", "fixed", "default"], ["window=8"]])
         elif c["comp"] in ("xz", "lzma"):
-            extra = r.choice([["level=0"], ["level=9"], ["dictsize=8K"], ["dictsize=4096"], ["lc=1", "lp=2"], ["pb=0"], ["extreme"],
+            extra = r.choice([["level=0"], ["level=9"], ["dictsize=8K"], ["dictsize=8192"], ["lc=1", "lp=2"], ["pb=0"], ["extreme"],
                               ["lc=4", "lp=0", "pb=4"]])
             if c["comp"] == "xz" and r.random() < 0.4:
                 extra = extra + r.choice([["x86"], ["arm", "armthumb"], ["sparc", "ia64", "powerpc"]])
